@@ -205,8 +205,13 @@ def _r041(ck, prog, cfg):
                         if not is_callee(it, r"IntoIterator>::into_iter$"):
                             continue
                         a = op_place(it["args"][0])
-                        if a is None or "p" in a or a["l"] not in (vals | refs):
+                        if a is None or "p" in a:
                             continue
+                        if a["l"] not in (vals | refs):
+                            # seen through views and parameter bindings of an inlined helper (`&results` -> `&[RespValue]`)
+                            sa = src_of_operand(fn, it["args"][0], through_calls=BUF_THROUGH)
+                            if not (sa.local in (vals | refs) or (sa.kind == "call" and callee(pt).rsplit("::", 1)[-1] in callee(sa.term))):
+                                continue
                         # the loop over the results contains an encode of the iterated element
                         body = fn.reach([ib])
                         has_enc = any(eb in body and ib in ({eb} | fn.reach([eb])) or eb in body for eb, _ in _encode_sites(fn)
